@@ -231,8 +231,13 @@ class Check:
         cmd = ["go", "build", "-tags", " ".join(tags), "-ldflags=-checklinkname=0"]
         if race:
             cmd.append("-race")
+        # VERIF_OVERLAY=<overlay.json>: mutation experiments without touching /repo (go build -overlay)
+        overlay = overlay or os.environ.get("VERIF_OVERLAY")
         if overlay:
             cmd += ["-overlay", overlay]
+            name_suffix = "_ov" + hashlib.md5(open(overlay, "rb").read()).hexdigest()[:8]
+            out = out + name_suffix
+            cmd_out_fix = True
         cmd += ["-o", out, pkg]
         rc, so, se = sh(cmd, cwd=HARNESS, timeout=900)
         if rc != 0:
@@ -255,7 +260,12 @@ class Check:
         ok_all = True
         if clean:
             sh("make clean", cwd=COQ, timeout=300)
-        ok, out = self.coq_make([os.path.join("theories", pf[:-2] + ".vo") for pf in prop_files])
+        # build the dependencies of the statement files (each statement file itself is compiled
+        # exactly once below, by coqc, so that its Print Assumptions output is captured)
+        cone0 = coq_cone(prop_files)
+        propset = {os.path.join(COQ, "theories", pf) for pf in prop_files}
+        deps0 = [os.path.relpath(p, COQ)[:-2] + ".vo" for p in cone0 if p not in propset]
+        ok, out = self.coq_make(deps0 or None)
         if not ok:
             self.log("coq make failed:\n" + out[-3000:])
             self.cov["obligation_failure"] = out[-3000:]
@@ -438,7 +448,7 @@ def parse_assumptions(out, axioms):
             blocks += 1
             inblock = True
         elif inblock:
-            m = re.match(r"^([A-Za-z_][A-Za-z0-9_.']*)\s*:", line)
+            m = re.match(r"^([A-Za-z_][A-Za-z0-9_.']*)\s*(:|$)", line)
             if m:
                 axioms.add(m.group(1))
             elif line and not line[0].isspace():
@@ -478,6 +488,11 @@ def coq_project():
     if old != txt or not os.path.exists(os.path.join(COQ, "Makefile")):
         with open(p, "w") as f:
             f.write(txt)
+        for stale in (".Makefile.d", "Makefile.conf"):
+            try:
+                os.remove(os.path.join(COQ, stale))
+            except OSError:
+                pass
         sh("coq_makefile -f _CoqProject -o Makefile", cwd=COQ, timeout=120)
 
 
@@ -490,7 +505,16 @@ def coq_make(targets=None, keep_going=False):
         fcntl.flock(lf, fcntl.LOCK_EX)
         try:
             coq_project()
-            return sh("timeout 3000 make -j16 %s %s" % ("-k" if keep_going else "", tg), cwd=COQ, timeout=3100)
+            r = sh("timeout 3000 make -j16 %s %s" % ("-k" if keep_going else "", tg), cwd=COQ, timeout=3100)
+            if r[0] != 0 and "No rule to make target" in (r[1] + r[2]):
+                # a .v file disappeared since the dependency file was written: regenerate and retry once
+                try:
+                    os.remove(os.path.join(COQ, "_CoqProject"))
+                except OSError:
+                    pass
+                coq_project()
+                r = sh("timeout 3000 make -j16 %s %s" % ("-k" if keep_going else "", tg), cwd=COQ, timeout=3100)
+            return r
         finally:
             fcntl.flock(lf, fcntl.LOCK_UN)
 
